@@ -4,6 +4,7 @@ CONSTANTS
   Vals = {"a", "b"}
   MaxDepth = 3
   PosVals <- PosNone
+  Thens = {"none", "assign", "export", "ro"}
   UnsetAsCoded = TRUE
   MaxH = 100
 VIEW view
